@@ -339,6 +339,7 @@ def work(job):
 def run_jobs(jobs):
     import multiprocessing
     n = max(1, min(12, fw.NPROC - 2))
+    parse({"m.emb": "struct W:\n  0 [+1]  UInt  x\n"}, "m.emb")     # build the parser once, before forking
     if len(jobs) < 4 or n == 1:
         return [work(j) for j in jobs]
     with multiprocessing.get_context("fork").Pool(n) as pool:
